@@ -45,10 +45,13 @@ DupA = pydantic.create_model("Dup", value=(int, ...))
 DupB = pydantic.create_model("Dup", value=(str, ...))
 DupA.__module__ = DupB.__module__ = __name__
 
-TYPES: Dict[str, Any] = {"dupa": DupA, "dupb": DupB,"int": int, "float": float, "str": str, "bool": bool, "listint": List[int], "model": PModel, "dc": PData,
+from typing import Union as _Union
+
+TYPES: Dict[str, Any] = {"dupa": DupA, "dupb": DupB, "num": _Union[bool, int, float],"int": int, "float": float, "str": str, "bool": bool, "listint": List[int], "model": PModel, "dc": PData,
                          "optint": Optional[int]}
 # (convertible-and-changing value, not convertible value, native value)
 VALUES: Dict[str, Tuple[Any, Any, Any]] = {
+    "num": (1.0, "x", 1),
     "dupa": ({"value": "7"}, {"value": "x"}, {"value": 7}), "dupb": ({"value": "7"}, {"value": [1]}, {"value": "s"}),
     "int": ("5", "five", 5), "float": ("1.5", "x", 2.5), "str": (b"bytes".decode(), [1], "s"), "bool": ("true", "maybe", True),
     "listint": (["1", 2], "no", [1, 2]), "model": ({"a": "3"}, {"a": "x"}, {"a": 3, "b": "dflt"}),
@@ -56,7 +59,7 @@ VALUES: Dict[str, Tuple[Any, Any, Any]] = {
 }
 # falsy values that still must be converted to the annotated type
 FALSY: Dict[str, Any] = {"float": 0, "bool": 0, "str": "", "listint": [], "optint": 0, "int": 0.0, "model": {}, "dc": {}}
-JSON_POOL = [0, -1, 2 ** 40, 1.25, "", "héllo ☃", True, None, [1, [2, {"k": None}]], {"a": {"b": [1.5, "x"]}}, "5", [], {}]
+JSON_POOL = [1, True, 1.0, 0.0, False, 0, -1, 2 ** 40, 1.25, "", "héllo ☃", True, None, [1, [2, {"k": None}]], {"a": {"b": [1.5, "x"]}}, "5", [], {}]
 
 
 class CapBroker(AsyncBroker):
@@ -86,6 +89,8 @@ def value_for(vc: str, ty: str, an: str, rng: random.Random) -> Any:
     if an != "T":
         return rng.choice(JSON_POOL)
     conv, nconv, native = VALUES[ty]
+    if ty == "num":
+        return rng.choice([1, True, 1.0, 0, False, 0.0]) if vc in ("conv", "native", "convfalsy") else nconv
     if vc == "convfalsy":
         return FALSY.get(ty, conv)
     return {"conv": conv, "nconv": nconv, "native": native}[vc]
